@@ -84,6 +84,12 @@ def run(ctx):
         scs.append(dict(v=4, mtu=1500, sack=(k % 2 == 0), cc='', deadline_ms=30000, seed=7300 + k, flags={}, tag='scaled-zero-window-%d-rb%d' % (k, rb),
                         a=dict(writes=[first, rb + 50000], shutdown=True), b=dict(writes=[], shutdown=True, rcvbuf=rb, read_start_ms=600),
                         a2b=dict(), b2a=dict()))
+    # the application changes its receive buffer size in the middle of a transfer (larger, and much smaller): the advertised
+    # right edge still never moves left
+    for k, (rb, rb2) in enumerate([(20000, 4000), (65536, 2000), (4096, 60000), (30000, 1)][:ctx.pick(3, 4)]):
+        scs.append(dict(v=4 if k % 2 == 0 else 6, mtu=1500, sack=True, cc='', deadline_ms=30000, seed=7400 + k, flags={}, sync=(k % 2 == 0), tag='rcvbuf-change-%d-%d-to-%d' % (k, rb, rb2),
+                        a=dict(writes=[3000] * 12, write_gap_us=30000, shutdown=True),
+                        b=dict(writes=[], shutdown=True, rcvbuf=rb, rcvbuf2=rb2, rcvbuf2_ms=120, read_delay_us=20000), a2b=dict(), b2a=dict()))
     # asymmetric link MTUs: the peer's announced MSS (its MTU - 40) is the binding limit, not the sender's own MTU
     for k in range(ctx.pick(6, 24)):
         big, small = rng.choice([1500, 1500, 9000]), [100, 300, 576, 200, 1000, 68][k % 6]
